@@ -37,6 +37,11 @@ func (o *SchemaOpts) name(t *rapid.T, prefix string) string {
 	if o.FancyNames && rapid.IntRange(0, 5).Draw(t, "fancyName") == 0 {
 		n += rapid.SampledFrom(fancy).Draw(t, "fancy")
 	}
+	if o.FancyNames && rapid.IntRange(0, 11).Draw(t, "dottedName") == 0 {
+		// a name given as a full name (other writers, generic Go types); a namespace
+		// attribute may stand next to it all the same
+		n = rapid.SampledFrom([]string{"pkg.", "a.b_c.", "github.com/x/y.Box[z."}).Draw(t, "dots") + n
+	}
 	return n
 }
 
@@ -138,8 +143,13 @@ func RecordSchema(t *rapid.T, o *SchemaOpts, depth int) ref.Schema {
 		lo = 0
 	}
 	n := UniformRange(t, "nfields", lo, 5)
+	caseVariants := o.FancyNames && rapid.IntRange(0, 7).Draw(t, "caseVariantFields") == 0
 	for i := 0; i < n; i++ {
 		name := fmt.Sprintf("f%d", i)
+		if caseVariants {
+			// names are case sensitive: these are five different fields
+			name = []string{"id", "ID", "Id", "iD", "Key"}[i]
+		}
 		if o.FancyNames && rapid.IntRange(0, 7).Draw(t, "fancyField") == 0 {
 			name += rapid.SampledFrom(fancy).Draw(t, "fancyf")
 		}
